@@ -338,7 +338,13 @@ def check(prop, tier, seed, work, replay, t0):
                     args += ["-n", str(per)]
                 if sub in ("rand", "exhaust", "follow"):
                     args += ["-plans", ppart]
-                p = subprocess.run(args, stdout=subprocess.PIPE, stderr=subprocess.STDOUT, text=True, env=GOENV, timeout=7200)
+                try:
+                    p = subprocess.run(args, stdout=subprocess.PIPE, stderr=subprocess.STDOUT, text=True, env=GOENV,
+                                       timeout=1800 if tier == "quick" else 14400)
+                except subprocess.TimeoutExpired:
+                    # a driver that does not come to an end is a failure of the machinery (its own stall rules should have
+                    # ended the run): never a verdict
+                    raise Broken("dagdrive did not finish: " + " ".join(args))
                 if p.returncode != 0 and "fatal error:" in p.stdout and os.path.exists(ppart):
                     # the Go runtime killed the process (stack overflow, deadlock ...): if the last plan does it again
                     # in a process of its own, the library is at fault, not the driver
